@@ -187,7 +187,11 @@ LFOR:
 				} else {
 					p.parseErr("expect , or }")
 				}
+			default:
+				p.parseErr("expect , or } or =")
 			}
+		default:
+			p.parseErr("expect enum member or }")
 		}
 	}
 	p.expect(token.Semi)
